@@ -10,7 +10,11 @@ classifier recognises into KNOWN-FINDING lines.
 import json
 import pathlib
 
-PATH = pathlib.Path(__file__).resolve().parent.parent / "known_findings.json"
+import os
+
+# the committed file; YADSIM_KNOWN_FINDINGS exists only so that the open-finding path can be self-tested
+PATH = pathlib.Path(os.environ.get("YADSIM_KNOWN_FINDINGS",
+                                   str(pathlib.Path(__file__).resolve().parent.parent / "known_findings.json")))
 
 
 def load():
